@@ -15,7 +15,8 @@ THOROUGH_K_TIMEOUT = 2400
 
 
 def build_native(overlay_dir, example, log_path, release=False):
-    env = dict(os.environ, CARGO_NET_OFFLINE='true', RUSTFLAGS='--cfg verif_rt -Awarnings', CARGO_TERM_COLOR='never')
+    # optimised, but with arithmetic overflow checks ON: an overflow that would panic in a debug build must not go unnoticed (C05)
+    env = dict(os.environ, CARGO_NET_OFFLINE='true', RUSTFLAGS='--cfg verif_rt -Awarnings' + (' -C overflow-checks=on' if release else ''), CARGO_TERM_COLOR='never')
     cmd = ['cargo', 'build', '--offline', '--example', example] + (['--release'] if release else [])
     with open(log_path, 'w') as log:
         rc = subprocess.run(cmd, cwd=overlay_dir, env=env, stdout=log, stderr=subprocess.STDOUT).returncode
@@ -124,6 +125,9 @@ class Context:
             if h.get('tier', 'quick') == 'thorough' and self.tier != 'thorough':
                 continue
             hs.append(h)
+        only = os.environ.get('VERIF_ONLY_HARNESS')   # debugging aid
+        if only:
+            hs = [h for h in hs if h['name'] in only.split(',')]
         return hs
 
     def run_kani(self):
@@ -178,8 +182,12 @@ class Context:
         m = re.search(r'pub fn ' + re.escape(h['body']) + r'\s*\(\)\s*\{', txt)
         if not m:
             return ''
-        end = txt.find('\n}\n', m.end())
-        body = txt[m.end():end]
+        eol = txt.find('\n', m.end())
+        if txt[m.end():eol].rstrip().endswith('}'):
+            body = txt[m.end():eol]          # one-line harness: `pub fn h() { helper::<W>(..) }`
+        else:
+            end = txt.find('\n}\n', m.end())
+            body = txt[m.end():end]
         pat = r'(?:src::check(?:_rt)?|vcheck!)\([^;]*?"((?:[^"\\]|\\.)*)"\s*\)\s*;'
         msgs = re.findall(pat, body, re.S)
         if not msgs:
